@@ -68,15 +68,23 @@ func yamlUnmarshalStream(in []byte) ([]any, error) {
 }
 
 func yamlTranslateNode(node *yaml.Node) (any, error) {
+	return yamlTranslate(node, map[*yaml.Node]struct{}{})
+}
+
+// yamlTranslate converts a node tree; active holds the anchored nodes whose
+// aliases are currently being expanded, so that an anchor that (directly or
+// through a merge key) contains an alias to itself is reported instead of
+// recursing until the stack is exhausted.
+func yamlTranslate(node *yaml.Node, active map[*yaml.Node]struct{}) (any, error) {
 	switch node.Kind {
 	case yaml.DocumentNode:
-		return yamlTranslateNode(node.Content[0])
+		return yamlTranslate(node.Content[0], active)
 
 	case yaml.SequenceNode:
 		ret := []any{}
 
 		for _, v := range node.Content {
-			v2, err := yamlTranslateNode(v)
+			v2, err := yamlTranslate(v, active)
 			if err != nil {
 				return nil, err
 			}
@@ -92,7 +100,7 @@ func yamlTranslateNode(node *yaml.Node) (any, error) {
 		// First see if there's a merge statement, and merge the referenced map(s) into ret.
 		for i := 0; i+1 < len(node.Content); i += 2 {
 			if yamlIsMergeKey(node.Content[i]) {
-				v2, err := yamlTranslateNode(node.Content[i+1])
+				v2, err := yamlTranslate(node.Content[i+1], active)
 				if err != nil {
 					return nil, err
 				}
@@ -110,7 +118,7 @@ func yamlTranslateNode(node *yaml.Node) (any, error) {
 				continue
 			}
 
-			v2, err := yamlTranslateNode(node.Content[i+1])
+			v2, err := yamlTranslate(node.Content[i+1], active)
 			if err != nil {
 				return nil, err
 			}
@@ -147,7 +155,14 @@ func yamlTranslateNode(node *yaml.Node) (any, error) {
 		}
 
 	case yaml.AliasNode:
-		return yamlTranslateNode(node.Alias)
+		if _, found := active[node.Alias]; found {
+			return nil, fmt.Errorf("anchor %s contains itself: %w", node.Value, ErrCircularRef)
+		}
+
+		active[node.Alias] = struct{}{}
+		defer delete(active, node.Alias)
+
+		return yamlTranslate(node.Alias, active)
 
 	case 0:
 		return nil, nil
